@@ -8,6 +8,7 @@
 # @author Davide Brunato <brunato@sissa.it>
 #
 import json
+from copy import copy
 from collections.abc import Iterator, Iterable
 from decimal import Decimal
 from types import ModuleType
@@ -309,17 +310,23 @@ def serialize_to_xml(elements: Iterable[Any],
             chunks.append(item)
             continue
 
+        if elem.tail:
+            # the tail is a sibling text node: serialize a shallow copy without it
+            # (lxml copies are deep and keep the namespace declarations in scope)
+            elem = copy(elem)
+            elem.tail = None
+
         try:
             cks = etree_module.tostringlist(
                 elem, encoding='utf-8', method=method, **kwargs
             )
         except TypeError:
             ck = etree_module.tostring(elem, encoding='utf-8', method=method)
-            chunks.append(ck.decode('utf-8').rstrip(elem.tail))
+            chunks.append(ck.decode('utf-8'))
         else:
             if cks and cks[0].startswith(b'<?'):
                 cks[0] = cks[0].replace(b'\'', b'"')
-            chunks.append(b'\n'.join(cks).decode('utf-8').rstrip(elem.tail))
+            chunks.append(b'\n'.join(cks).decode('utf-8'))
 
     if not character_map:
         return (item_separator or '').join(chunks)
